@@ -195,7 +195,7 @@ func (c *ctx) rangeSection(r *lib.RNG, out chan<- batch) {
 		sort.Slice(spec.KVs, func(i, j int) bool { return spec.KVs[i].K < spec.KVs[j].K })
 		bt, err := buildTrie(&spec)
 		if err != nil {
-			res.Note("range: build: %v", err)
+			res.Fatalf("range: build: %v", err)
 			continue
 		}
 		rootHex := fhex(&bt.root)
@@ -213,7 +213,7 @@ func (c *ctx) rangeSection(r *lib.RNG, out chan<- batch) {
 		rp := func(l, rk string) Proof {
 			p, err := bt.rangeProof(l, rk)
 			if err != nil {
-				res.Note("range: GetRangeProof: %v", err)
+				res.Fatalf("range: GetRangeProof: %v", err)
 			}
 			return p
 		}
@@ -578,7 +578,7 @@ func (c *ctx) probeRangeCfg() string {
 		{K: strings.Repeat("0", 251), V: "2"}, {K: strings.Repeat("0", 250) + "1", V: "3"}, {K: "1" + strings.Repeat("0", 250), V: "5"}}}
 	bt, err := buildTrie(&spec)
 	if err != nil {
-		c.res.Note("range probe: %v", err)
+		c.res.Fatalf("range probe: %v", err)
 		return "01000"
 	}
 	rootHex := fhex(&bt.root)
